@@ -1,6 +1,6 @@
 //! mv — the verification engine for mel-project/melstf (property-based testing / fuzzing family).
 
-use mv::{alloc, evidence, mon, runner, util};
+use mv::{alloc, evidence, fuzzing, mon, runner, util};
 use std::collections::BTreeMap;
 use std::time::Instant;
 
@@ -136,10 +136,34 @@ fn main() {
             for (k, v) in pinned_hits {
                 *out.stats.known_hits.entry(k).or_insert(0) += v;
             }
+            // thorough tier: coverage-guided byte-level campaign with the oracle inside the target
+            let mut fuzz_json = serde_json::Value::Null;
+            if ctx.thorough() && std::env::var("MV_NO_FUZZ").is_err() {
+                let plan: Option<(&str, u64, usize, u64)> = match id.as_str() {
+                    "C12" => Some(("fz_decode", 4_000_000, 2048, 180)),
+                    "C10" | "C11" => Some(("fz_vm", 2_000_000, 512, 180)),
+                    "C09" | "C01" | "C02" => Some(("fz_stf", 200_000, 1024, 240)),
+                    _ => None,
+                };
+                if let Some((target, runs, max_len, secs)) = plan {
+                    let fo = fuzzing::run_campaign(target, runs, seed, max_len, secs);
+                    out.stats.evals += fo.execs;
+                    fuzz_json = fo.json();
+                    if let Some(c) = &fo.crash {
+                        let viol = evidence::Violation::new(format!("fuzz-crash-{}", target), format!("libFuzzer target {} crashed: {}", target, fo.note));
+                        violations.push((viol, c.clone()));
+                    } else if !fo.ran {
+                        println!("NOTE property={} fuzz campaign {} did not run: {}", id, target, fo.note.chars().take(300).collect::<String>());
+                    }
+                }
+            }
             violations.extend(out.violations);
             let mut extra = BTreeMap::new();
             extra.insert("replays_rerun".to_string(), serde_json::json!(replay_results));
             extra.insert("shards".to_string(), serde_json::json!(shards));
+            if !fuzz_json.is_null() {
+                extra.insert("fuzz_campaign".to_string(), fuzz_json);
+            }
             extra.insert("pinned_known_finding_cases".to_string(), serde_json::json!(pinned_results));
             // known findings: print one line per signature that was actually hit
             for (sig, n) in out.stats.known_hits.iter() {
@@ -184,7 +208,37 @@ fn main() {
             let id = args[2].clone();
             let (_, replay, _) = table(&id).unwrap_or_else(|| usage());
             let b = std::fs::read(&args[3]).expect("cannot read replay file");
-            let v: serde_json::Value = serde_json::from_slice(&b).expect("replay is not JSON");
+            let v: serde_json::Value = match serde_json::from_slice(&b) {
+                Ok(v) => v,
+                Err(_) => {
+                    // a raw libFuzzer artifact: run the target's oracle on the bytes, strictly
+                    let bytes = b.clone();
+                    let idc = id.clone();
+                    let res = std::thread::Builder::new()
+                        .name("s200".into())
+                        .stack_size(256 << 20)
+                        .spawn(move || match idc.as_str() {
+                            "C12" => fuzzing::target_decode(&bytes),
+                            "C10" | "C11" => fuzzing::target_vm(&bytes),
+                            _ => fuzzing::target_stf(&bytes, true),
+                        })
+                        .unwrap()
+                        .join()
+                        .expect("replay thread died");
+                    match res {
+                        Ok(()) => {
+                            println!("replay passes: property={} file={}", id, args[3]);
+                            std::process::exit(0)
+                        }
+                        Err(viol) => {
+                            println!("VIOLATION property={} replay={}", id, args[3]);
+                            println!("  signature: {}", viol.signature);
+                            println!("  detail: {}", viol.detail.chars().take(1500).collect::<String>());
+                            std::process::exit(1)
+                        }
+                    }
+                }
+            };
             let case = v["case"].clone();
             let res = std::thread::Builder::new()
                 .name("s200".into())
@@ -205,6 +259,39 @@ fn main() {
                     std::process::exit(1)
                 }
             }
+        }
+        "gen-corpus" => {
+            // writes small seed inputs for the fuzz targets under <VERIF_ROOT>/corpus/<target>/
+            use proptest::strategy::{Strategy, ValueTree};
+            use proptest::test_runner::{Config, RngAlgorithm, TestRng, TestRunner};
+            let root = evidence::verif_root().join("corpus");
+            let mut runner = TestRunner::new_with_rng(Config::default(), TestRng::from_seed(RngAlgorithm::ChaCha, &[7u8; 32]));
+            for (target, n) in [("fz_decode", 40usize), ("fz_vm", 60)] {
+                let d = root.join(target);
+                std::fs::create_dir_all(&d).unwrap();
+                for i in 0..n {
+                    let ch = mv::vmgen::choices(if i % 3 == 0 { 40 } else { 12 }).new_tree(&mut runner).unwrap().current();
+                    let mut bytes = mv::refvm::encode(&mv::vmgen::build_program(&ch)).unwrap();
+                    if target == "fz_vm" {
+                        bytes.insert(0, i as u8);
+                    }
+                    std::fs::write(d.join(format!("seed-{:03}", i)), bytes).unwrap();
+                }
+            }
+            let d = root.join("fz_stf");
+            std::fs::create_dir_all(&d).unwrap();
+            for i in 0..40usize {
+                let len = 150 + 20 * i;
+                let mut bytes = vec![];
+                let mut ctr = 0u64;
+                while bytes.len() < len {
+                    bytes.extend_from_slice(blake3::hash(format!("stf-seed-{}-{}", i, ctr).as_bytes()).as_bytes());
+                    ctr += 1;
+                }
+                bytes.truncate(len);
+                std::fs::write(d.join(format!("seed-{:03}", i)), bytes).unwrap();
+            }
+            println!("corpus written under {}", root.display());
         }
         _ => usage(),
     }
